@@ -456,6 +456,16 @@ impl<'a> Bytes<'a> {
         let b = self.u8() as u16;
         b << 8 | b
     }
+    /// two bytes: the full 16-bit range (choice vectors of the text generators)
+    pub fn u16_full(&mut self) -> u16 {
+        let hi = self.u8() as u16;
+        let lo = self.u8() as u16;
+        hi << 8 | lo
+    }
+    pub fn choices(&mut self, max: usize) -> Vec<u16> {
+        let n = self.len(max);
+        (0..n).map(|_| self.u16_full()).collect()
+    }
     pub fn len(&mut self, max: usize) -> usize {
         (self.u8() as usize) % (max + 1)
     }
